@@ -631,6 +631,9 @@ type cgFaults struct {
 // valid (v1: IPv4 only; at least one network; unsafe families backed by a network of that family).
 func cgDrawLeafSpec(rt *rapid.T, ca *cgCA, f cgFaults, label string) cgSpec {
 	ver := rapid.SampledFrom([]Version{Version1, Version2}).Draw(rt, label+"-ver")
+	if len(ca.spec.Networks) > 0 && !slices.ContainsFunc(ca.spec.Networks, func(p netip.Prefix) bool { return p.Addr().Is4() }) {
+		ver = Version2 // a v1 certificate cannot lie inside an IPv6-only CA
+	}
 	curve := ca.spec.Curve
 	if f.Curve {
 		curve = Curve_CURVE25519 + Curve_P256 - curve
@@ -687,6 +690,9 @@ func cgDrawLeafSpec(rt *rapid.T, ca *cgCA, f cgFaults, label string) cgSpec {
 			}
 		}
 		n := rapid.IntRange(min, 3).Draw(rt, label+tag+"-n")
+		if len(caNets) > 0 && len(usable) == 0 {
+			n = 0 // nothing of a usable family lies inside this CA
+		}
 		var out []netip.Prefix
 		for i := 0; i < n; i++ {
 			var p netip.Prefix
